@@ -7,7 +7,7 @@ EFF = {"pa": "print('a')", "pae": "print('a', end='')", "pn": "print()", "pas": 
        "pab": "print('a', 'b', sep='\\t')", "w": "sys.stdout.write('b')", "sp": "print('  ')",
        "pnn": "print('\\n')", "in": "v = input('p')", "ina": "v = ask('p')", "st": "sys.settrace(None)",
        "im": "import helper_mod", "cb": "hook()",
-       "wsv": "saved_out.write('c')",
+       "wsv": "saved_out.write('c')", "pcr": "print('a', end='\\r')", "pcrb": "print('a\\rb')",
        # the program edits the interpreter's module table itself: drops an entry that was there, rebinds another
        "dm": "sys.modules.pop('colorsys', None); sys.modules['this_is_not_a_module'] = sys; sys.modules['json'] = 'not json'"}
 import colorsys  # noqa: E402,F401  (in the module table before any behaviour starts)
